@@ -145,10 +145,35 @@ def subst(body, m):
     return body
 
 
+def flavour():
+    mod = rd('codegen/mod.rs')
+    impl = extract(mod, r"^impl<'a> FieldCodegen<'a> for Bitfield \{", what='impl FieldCodegen for Bitfield')
+    m = re.search(r'if (parent\.is_union\(\)\s*&&[^{;]*)\{', impl)
+    if not m:
+        raise SliceError('union/struct template switch not found in impl FieldCodegen for Bitfield')
+    cond = m.group(1).strip()
+    unit = extract(mod, r"^impl FieldCodegen<'_> for BitfieldUnit \{", what='impl FieldCodegen for BitfieldUnit')
+    m2 = re.search(r'let field_ty = \{', unit)
+    if not m2:
+        raise SliceError('BitfieldUnit::codegen: `let field_ty = {` statement not found')
+    stmt = unit[m2.start():match_brace(unit, m2.end() - 1)] + ';'
+    wrap = extract(mod, r'^fn wrap_union_field_if_needed\(', what='wrap_union_field_if_needed')
+    iru = extract(rd('ir/comp.rs'), r'^    pub\(crate\) fn is_rust_union\(', what='CompInfo::is_rust_union')
+    h = open(os.path.join(HD, 'c03_flavour.rs')).read().replace('/*IS_RUST_UNION*/', iru).replace('/*WRAP_FN*/', wrap).replace('/*FIELD_TY_STMT*/', stmt.replace('unit_field_ty.clone()', 'unit_field_ty')).replace('/*SWITCH_COND*/', cond)
+    k = Kernel(name='union_unit_flavour')
+    k.files = {'src/lib.rs': h}
+    k.harnesses = [H('union_bitfield_accessors_match_the_storage_of_their_unit', desc='the accessor templates that go through __BindgenUnionField::as_ref/as_mut are selected exactly when the unit member is wrapped in __BindgenUnionField (real switch condition, real field_ty statement, real wrap_union_field_if_needed, real CompInfo::is_rust_union)',
+                     sample='struct / union, forward declaration, <= 2 members Copy or not, every union-style option, any layout')]
+    k.encoded = [enc('codegen/mod.rs', 'Bitfield::codegen: template switch condition', cond), enc('codegen/mod.rs', 'BitfieldUnit::codegen: field_ty statement', stmt), enc('codegen/mod.rs', 'fn wrap_union_field_if_needed', wrap), enc('ir/comp.rs', 'CompInfo::is_rust_union', iru)]
+    k.stubs = ['syn::Type: Unit / ManuallyDrop / UnionField (parse_quote! arms per shape)', 'RegexSet::matches: symbolic answer', 'TypeId::can_derive_copy: symbolic answer per member', 'rewrite: unit_field_ty.clone() -> unit_field_ty (Copy stub)']
+    k.assumptions = ['StructLayoutTracker::new stores what CompInfo::is_rust_union returns (struct_layout.rs, read)']
+    k.bounds = ['<= 2 members; all option combinations']
+    return k
+
 def k3(tier, seed, known):
     mod = rd('codegen/mod.rs')
     impl = extract(mod, r"^impl<'a> FieldCodegen<'a> for Bitfield \{", what='impl FieldCodegen for Bitfield')
-    m = re.search(r'if parent\.is_union\(\) && !struct_layout\.is_rust_union\(\) \{', impl)
+    m = re.search(r'if parent\.is_union\(\)\s*&&[^{;]*\{', impl)
     if not m:
         raise SliceError('union/struct template switch not found in impl FieldCodegen for Bitfield')
     ub = m.end() - 1
@@ -290,7 +315,7 @@ def build(tier, seed):
     known = load_known()
     ks = [kernel_or_error('k1_unit', lambda: k1(tier, known)),
           kernel_or_error('k1c_const', lambda: k1c(tier, seed, known)),
-          kernel_or_error('k3_templates', lambda: k3(tier, seed, known))]
+          kernel_or_error('k3_templates', lambda: k3(tier, seed, known)), kernel_or_error('union_unit_flavour', flavour)]
     try:
         from props import c03_k2
         ks.append(kernel_or_error('k2_alloc', lambda: c03_k2.kernel(tier, seed, known)))
